@@ -78,7 +78,7 @@ class LoopMixin:
             st.assume(seq)
             itv = SRef(PyVal.rval(itv.t), "list:any")
         if isinstance(itv, SRef) and itv.kind.startswith("list:") and isinstance(node.iter, ast.Call) and st.old is not None \
-                and not self.feasible(st, itv.t < st.old[2]):
+                and self.surely_not(st, itv.t < st.old[2]):
             # a list created during this activation and held only by the loop's iterator (the iterable is a call
             # expression, the list is provably fresh): nobody else can reach it, so iteration is over a snapshot.
             # Assumes a repository function returning a fresh list does not retain it elsewhere.
@@ -421,7 +421,7 @@ class LoopMixin:
                             stb = stable_term(ix)
                             if stb is not None:
                                 locs.append(stb)
-                            elif self.feasible(s2, ix < a_dry):
+                            elif not self.surely_not(s2, ix < a_dry):
                                 ok = False
                         t = inner_entry
                         continue
@@ -430,7 +430,7 @@ class LoopMixin:
                         stb = stable_term(ix)
                         if stb is not None:
                             locs.append(stb)
-                        elif self.feasible(s2, ix < a_dry):
+                        elif not self.surely_not(s2, ix < a_dry):
                             ok = False
                         t = t.arg(0)
                     else:
